@@ -4,6 +4,7 @@
 package keeper
 
 //@ import host "github.com/bianjieai/tibc-go/modules/tibc/core/24-host"
+//@ import exported "github.com/bianjieai/tibc-go/modules/tibc/core/exported"
 
 // Module invariants (DESIGN §3). I3: a packet handed to an application still has its receipt, or lies at or below
 // the clean point of its pair. I8: an acknowledged packet has no commitment any more.
@@ -70,3 +71,192 @@ package keeper
 //@   ensures keeper.once: ncalls((Keeper).RecvCleanPacket) == 1 && (forall k in calls((Keeper).RecvCleanPacket) :: k.cleanPacket == msg.CleanPacket &&
 //@                           k.proof == msg.ProofCommitment && k.proofHeight == msg.ProofHeight)
 //@   ensures propagate:   (forall k in calls((Keeper).RecvCleanPacket) :: (k.err != nil <==> err != nil))
+
+// ---------------------------------------------------------------------------------------------------------
+// Layer 2: lemmas over the contracts above and the packet keeper's (ghost programs; `call` applies a contract).
+
+//@ import packetkeeper "github.com/bianjieai/tibc-go/modules/tibc/core/04-packet/keeper"
+//@ import sdk "github.com/cosmos/cosmos-sdk/types"
+
+// C09: consecutive successful sends on one pair get consecutive sequences, the first one is 1, and each leaves its commitment.
+//@ lemma C09.gap_free
+//@   props C09
+//@   fresh k: packetkeeper.Keeper
+//@   fresh ctx: sdk.Context
+//@   fresh p1, p2: iface packettypes.Packet
+//@   call e1 = packetkeeper.(Keeper).SendPacket(k, ctx, p1)
+//@   let mid = tibc
+//@   call e2 = packetkeeper.(Keeper).SendPacket(k, ctx, p2)
+//@   show first:  e1 == nil && !present(old(tibc)[nextSend(p1.SourceChain, p1.DestinationChain)]) ==> p1.Sequence == 1
+//@   show next:   e1 == nil && e2 == nil && p1.SourceChain == p2.SourceChain && p1.DestinationChain == p2.DestinationChain ==> p2.Sequence == p1.Sequence + 1
+//@   show noskip: e1 != nil && e2 == nil ==> p2.Sequence == packetkeeper.nextSendVal(old(tibc)[nextSend(p2.SourceChain, p2.DestinationChain)])
+//@   show commit: e1 == nil && e2 == nil && !(p1.SourceChain == p2.SourceChain && p1.DestinationChain == p2.DestinationChain) ==>
+//@                   tibc[commit(p1.SourceChain, p1.DestinationChain, p1.Sequence)] == some(sha256(str(p1.Data)))
+
+// C02 / C10: I3 (delivered packets keep their receipt or lie at or below the clean point) is preserved by every keeper
+// mutator, and the clean point of every pair never decreases (I6). One lemma per mutator: the induction step of
+// "for every history".
+//@ lemma C02.step.SendPacket
+//@   props C02 C10
+//@   fresh k: packetkeeper.Keeper
+//@   fresh ctx: sdk.Context
+//@   fresh p: iface packettypes.Packet
+//@   assume inv(I3)
+//@   let S0 = tibc
+//@   call e0 = packetkeeper.(Keeper).SendPacket(k, ctx, p)
+//@   show I3: inv(I3)
+//@   show I6: forall s: str, d: str :: u64(tibc[cleanPt(s, d)]) >=u u64(S0[cleanPt(s, d)])
+//@
+//@ lemma C02.step.RecvPacket
+//@   props C02 C10
+//@   fresh k: packetkeeper.Keeper
+//@   fresh ctx: sdk.Context
+//@   fresh p: iface packettypes.Packet
+//@   fresh proof: bytes
+//@   fresh h: iface clienttypes.Height
+//@   assume inv(I3)
+//@   let S0 = tibc
+//@   call e0 = packetkeeper.(Keeper).RecvPacket(k, ctx, p, proof, h)
+//@   show I3: e0 == nil || e0 == sdkerrors.ErrUnauthorized ==> inv(I3)
+//@   show I6: e0 == nil || e0 == sdkerrors.ErrUnauthorized ==> forall s: str, d: str :: u64(tibc[cleanPt(s, d)]) >=u u64(S0[cleanPt(s, d)])
+//@   show fresh: e0 == nil || e0 == sdkerrors.ErrUnauthorized ==> !delivered[receipt(p.SourceChain, p.DestinationChain, p.Sequence)]
+//@
+//@ lemma C02.step.WriteAcknowledgement
+//@   props C02 C10 C03
+//@   fresh k: packetkeeper.Keeper
+//@   fresh ctx: sdk.Context
+//@   fresh p: iface packettypes.Packet
+//@   fresh ackb: bytes
+//@   assume inv(I3)
+//@   let S0 = tibc
+//@   call e0 = packetkeeper.(Keeper).WriteAcknowledgement(k, ctx, p, ackb)
+//@   show I3: inv(I3)
+//@   show I6: forall s: str, d: str :: u64(tibc[cleanPt(s, d)]) >=u u64(S0[cleanPt(s, d)])
+//@   show never_empty: e0 == nil ==> len(ackb) != 0 && tibc[ack(p.SourceChain, p.DestinationChain, p.Sequence)] == some(sha256(str(ackb)))
+//@   show never_overwritten: present(S0[ack(p.SourceChain, p.DestinationChain, p.Sequence)]) ==> e0 != nil && tibc == S0
+//@
+//@ lemma C02.step.AcknowledgePacket
+//@   props C02 C10 C03
+//@   fresh k: packetkeeper.Keeper
+//@   fresh ctx: sdk.Context
+//@   fresh p: iface packettypes.Packet
+//@   fresh proof, ackb: bytes
+//@   fresh h: iface clienttypes.Height
+//@   assume inv(I3)
+//@   assume inv(I8)
+//@   let S0 = tibc
+//@   call e0 = packetkeeper.(Keeper).AcknowledgePacket(k, ctx, p, ackb, proof, h)
+//@   show I3: e0 == nil ==> inv(I3)
+//@   show I6: e0 == nil ==> forall s: str, d: str :: u64(tibc[cleanPt(s, d)]) >=u u64(S0[cleanPt(s, d)])
+//@   show I8: e0 == nil ==> inv(I8)
+//@   show once: e0 == nil ==> !acked[commit(p.SourceChain, p.DestinationChain, p.Sequence)] && !present(tibc[commit(p.SourceChain, p.DestinationChain, p.Sequence)])
+//@
+//@ lemma C02.step.CleanPacket
+//@   props C02 C10
+//@   fresh k: packetkeeper.Keeper
+//@   fresh ctx: sdk.Context
+//@   fresh cp: iface packettypes.CleanPacket
+//@   assume inv(I3)
+//@   let S0 = tibc
+//@   let me = clientkeeper.selfName(tibc)
+//@   call e0 = packetkeeper.(Keeper).CleanPacket(k, ctx, cp)
+//@   show I3: inv(I3)
+//@   show I6: forall s: str, d: str :: u64(tibc[cleanPt(s, d)]) >=u u64(S0[cleanPt(s, d)])
+//@   show forward: e0 == nil ==> u64(tibc[cleanPt(me, cp.DestinationChain)]) == cp.Sequence && cp.Sequence >u u64(S0[cleanPt(me, cp.DestinationChain)])
+//@   show nothing_else: forall q: key :: q != cleanPt(me, cp.DestinationChain) ==> tibc[q] == S0[q]
+//@
+//@ lemma C02.step.RecvCleanPacket
+//@   props C02 C10
+//@   fresh k: packetkeeper.Keeper
+//@   fresh ctx: sdk.Context
+//@   fresh cp: iface packettypes.CleanPacket
+//@   fresh proof: bytes
+//@   fresh h: iface clienttypes.Height
+//@   assume inv(I3)
+//@   let S0 = tibc
+//@   call e0 = packetkeeper.(Keeper).RecvCleanPacket(k, ctx, cp, proof, h)
+//@   show I3: e0 == nil ==> inv(I3)
+//@   show I6: e0 == nil ==> forall s: str, d: str :: u64(tibc[cleanPt(s, d)]) >=u u64(S0[cleanPt(s, d)])
+//@   show forward: e0 == nil ==> u64(tibc[cleanPt(cp.SourceChain, cp.DestinationChain)]) == cp.Sequence && cp.Sequence >u u64(S0[cleanPt(cp.SourceChain, cp.DestinationChain)])
+//@   show only_acks_receipts: e0 == nil ==> forall q: key :: !is_ack(q) && !is_receipt(q) && q != cleanPt(cp.SourceChain, cp.DestinationChain) ==> tibc[q] == S0[q]
+//@   show live_kept: e0 == nil ==> forall s: str, d: str, n: u64 :: n >u cp.Sequence || s != cp.SourceChain || d != cp.DestinationChain ==>
+//@                      tibc[ack(s, d, n)] == S0[ack(s, d, n)] && tibc[receipt(s, d, n)] == S0[receipt(s, d, n)]
+//@
+//@ // C10: after a clean to N every packet, acknowledgement or older clean request with sequence <= N is refused for good.
+//@ lemma C10.refused_for_good
+//@   props C10 C02
+//@   fresh k: packetkeeper.Keeper
+//@   fresh ctx: sdk.Context
+//@   fresh cp, cp2: iface packettypes.CleanPacket
+//@   fresh p: iface packettypes.Packet
+//@   fresh proof: bytes
+//@   fresh h: iface clienttypes.Height
+//@   call e0 = packetkeeper.(Keeper).RecvCleanPacket(k, ctx, cp, proof, h)
+//@   assume e0 == nil
+//@   call v = packetkeeper.(Keeper).ValidatePacket(k, ctx, p)
+//@   call v2 = packetkeeper.(Keeper).ValidateCleanPacket(k, ctx, cp2)
+//@   show packet: p.SourceChain == cp.SourceChain && p.DestinationChain == cp.DestinationChain && p.Sequence <=u cp.Sequence ==> v != nil
+//@   show clean:  cp2.SourceChain == cp.SourceChain && cp2.DestinationChain == cp.DestinationChain && cp2.Sequence <=u cp.Sequence ==> v2 != nil
+//@
+//@ // C01: what acceptance means at the packet layer, stated once over RecvPacket's contract: the proof was verified by the
+//@ // client of the proving chain for exactly (source, destination, sequence, sha256(data)); a rejection before that point changes nothing.
+//@ lemma C01.accepted_means_verified
+//@   props C01
+//@   fresh k: packetkeeper.Keeper
+//@   fresh ctx: sdk.Context
+//@   fresh p: iface packettypes.Packet
+//@   fresh proof: bytes
+//@   fresh h: iface clienttypes.Height
+//@   let S0 = tibc
+//@   let E0 = events
+//@   let me = clientkeeper.selfName(tibc)
+//@   let from = ite(p.DestinationChain == me && len(p.RelayChain) > 0, p.RelayChain, p.SourceChain)
+//@   call e0 = packetkeeper.(Keeper).RecvPacket(k, ctx, p, proof, h)
+//@   let accepted = e0 == nil || e0 == sdkerrors.ErrUnauthorized
+//@   show verified: accepted ==> present(S0[clientState(from)]) &&
+//@                    exported.VerifiedCommit(clienttypes.csDecode(val(S0[clientState(from)])), S0, from, now(), h.RevisionNumber, h.RevisionHeight, proof,
+//@                                            p.SourceChain, p.DestinationChain, p.Sequence, bytes(sha256(str(p.Data))))
+//@   show recorded: accepted ==> present(tibc[receipt(p.SourceChain, p.DestinationChain, p.Sequence)]) && !present(S0[receipt(p.SourceChain, p.DestinationChain, p.Sequence)])
+//@   show forwarded_only_if_verified: tibc[commit(p.SourceChain, p.DestinationChain, p.Sequence)] != S0[commit(p.SourceChain, p.DestinationChain, p.Sequence)] ==> e0 == nil && p.RelayChain == me
+//@   show unverified_changes_nothing: !accepted && !(present(S0[clientState(from)]) &&
+//@                    exported.VerifiedCommit(clienttypes.csDecode(val(S0[clientState(from)])), S0, from, now(), h.RevisionNumber, h.RevisionHeight, proof,
+//@                                            p.SourceChain, p.DestinationChain, p.Sequence, bytes(sha256(str(p.Data))))) ==> tibc == S0 && events == E0
+//@
+//@ // C13: every field of a relayed packet that selects the application or the proving chain must be bound by what the light
+//@ // client verified. Two deliveries that differ only in that field, presented from the same state with the same proof,
+//@ // must not both be accepted. One obligation per field.
+//@ lemma C13.binds.port
+//@   props C13
+//@   fresh k: packetkeeper.Keeper
+//@   fresh ctx: sdk.Context
+//@   fresh p1, p2: iface packettypes.Packet
+//@   fresh proof: bytes
+//@   fresh h: iface clienttypes.Height
+//@   assume p1.Sequence == p2.Sequence && p1.SourceChain == p2.SourceChain && p1.DestinationChain == p2.DestinationChain && p1.RelayChain == p2.RelayChain && p1.Data == p2.Data
+//@   assume p1.Port != p2.Port
+//@   let S0 = tibc
+//@   let E0 = events
+//@   call e1 = packetkeeper.(Keeper).RecvPacket(k, ctx, p1, proof, h)
+//@   set tibc = S0
+//@   set events = E0
+//@   call e2 = packetkeeper.(Keeper).RecvPacket(k, ctx, p2, proof, h)
+//@   show exclusive: !(e1 == nil && e2 == nil)
+//@
+//@ lemma C13.binds.relay
+//@   props C13
+//@   fresh k: packetkeeper.Keeper
+//@   fresh ctx: sdk.Context
+//@   fresh p1, p2: iface packettypes.Packet
+//@   fresh proof: bytes
+//@   fresh h: iface clienttypes.Height
+//@   assume p1.Sequence == p2.Sequence && p1.SourceChain == p2.SourceChain && p1.DestinationChain == p2.DestinationChain && p1.Port == p2.Port && p1.Data == p2.Data
+//@   assume p1.RelayChain != p2.RelayChain
+//@   let S0 = tibc
+//@   let E0 = events
+//@   call e1 = packetkeeper.(Keeper).RecvPacket(k, ctx, p1, proof, h)
+//@   set tibc = S0
+//@   set events = E0
+//@   call e2 = packetkeeper.(Keeper).RecvPacket(k, ctx, p2, proof, h)
+//@   show exclusive: !(e1 == nil && e2 == nil)
+//@
+//@ // source, destination, sequence and data are bound by construction: they are arguments of the verified relation (C01.accepted_means_verified#verified).
